@@ -72,6 +72,14 @@ func (e *Engine) harnessAPI2(name string, args []Value, fn *ssa.Function) (Value
 			e.callFuncV(a.(*FuncV), nil)
 		}
 		return nil, true
+	case "vFailRand":
+		return Iface{typ: e.fake("rand"), val: OpaqueV{kind: "rand-fail", data: e.mkErr("entropy source failed (vFailRand)")}}, true
+	case "vIsRandErr":
+		rd := args[1].(Iface)
+		if o, ok := rd.val.(OpaqueV); ok && o.kind == "rand-fail" {
+			return e.tt.Bool(e.errorsIs(args[0].(Iface), o.data.(Iface), 0)), true
+		}
+		return e.tt.Bool(false), true
 	case "vRand", "vYieldRand":
 		return Iface{typ: e.fake("rand"), val: OpaqueV{kind: "rand"}}, true
 	case "vEdVerdict":
